@@ -174,19 +174,29 @@ structure GUOut (K : Type) where
 def isIdent [DecidableEq K] (m : Nat) (S : Mat K) : Bool :=
   (List.range m).all fun i => (List.range m).all fun j => S i j = ident i j
 
-/-- `GaussianUnitary.compile(seq, registers)`; `norm` is applied to the accumulator after every iteration
-(identity in `compileGU`, tabulation in `compileGUFast`) -/
-def compileGUWith [DecidableEq K] (norm : Nat → Net K → Net K) (registers : List Nat)
-    (cmds : List (GCmd K)) : GUOut K :=
-  let used := usedModes cmds
+/-- `GaussianUnitary.compile(seq, registers)` with the list `used` that `used_modes` evaluates to;
+`norm` is applied to the accumulator after every iteration (identity in `compileGU`, tabulation in
+`compileGUFast`), `see` is how the loop sees a command (identity; the pre-fix loop did not see the dagger flag) -/
+def compileGUCore [DecidableEq K] (norm : Nat → Net K → Net K) (see : GCmd K → GCmd K) (used : List Nat)
+    (registers : List Nat) (cmds : List (GCmd K)) : GUOut K :=
   let n := used.length
-  let net : Net K := cmds.foldl (fun a c => norm n (stepGU (dictIdx used) n a c))
+  let net : Net K := cmds.foldl (fun a c => norm n (stepGU (dictIdx used) n a (see c)))
     ({ S := ident, r := fun _ => 0 } : Net K)
   let regs := ordReg registers used
   { n := n, regs := regs, S := net.S, r := net.r,
     hasGT := !isIdent (2 * n) net.S,
     dgates := (List.range regs.length).filterMap fun i =>
       if net.r i = 0 ∧ net.r (i + n) = 0 then none else some (regs.getD i 0, net.r i, net.r (i + n)) }
+
+def compileGUWith [DecidableEq K] (norm : Nat → Net K → Net K) (registers : List Nat)
+    (cmds : List (GCmd K)) : GUOut K :=
+  compileGUCore norm (fun c => c) (usedModes cmds) registers cmds
+
+/-- the code before the `fix:` commits 98a3457 and 126f5ec: `used_modes = list(set(..))` iterates in hash
+order — `ord` is whatever enumeration of the used modes that gives, e.g. `[8, 1]` — and `cmd.op.dagger`
+was never consulted -/
+def compileGUOld [DecidableEq K] (ord : List Nat) (registers : List Nat) (cmds : List (GCmd K)) : GUOut K :=
+  compileGUCore (fun _ a => a) (fun c => { c with dagger := false }) ord registers cmds
 
 def compileGU [DecidableEq K] (registers : List Nat) (cmds : List (GCmd K)) : GUOut K :=
   compileGUWith (fun _ a => a) registers cmds
@@ -371,5 +381,33 @@ def checkMerge (src out : List Cmd) (blocks : List MergeBlock) (segs : List Seg)
   | some ss, some os =>
     isLegal src ss.flatten && isLegal os.flatten out && segs.all (segOk src out blocks)
   | _, _ => false
+
+/-! ### gaussian_merge: the graph surgery of `merge_a_gaussian_op` (after the `fix:` commit dc8edea)
+
+`l` is the current circuit, `ms` the commands that are merged, `g :: ds` what replaces them (the first emitted
+command — the `GaussianTransform`, or the first `Dgate` when the matrix is the identity — and the remaining
+`Dgate`s).  `new_DAG` keeps the edges between commands that stay, connects every predecessor of a merged
+command to `g`, `g` to every `Dgate`, and every successor of a merged command to `g` and to the `Dgate`s acting
+on one of its modes. -/
+
+def sharesReg (d b : Cmd) : Bool := d.regs.any fun q => b.regs.contains q
+
+def surgeryEdges (l ms : List Cmd) (g : Cmd) (ds : List Cmd) : List (Cmd × Cmd) :=
+  ((dagEdges l).flatMap fun e =>
+    if ms.contains e.1 then
+      (if ms.contains e.2 then []
+       else (g, e.2) :: (ds.filter fun d => sharesReg d e.2).map fun d => (d, e.2))
+    else (if ms.contains e.2 then [(e.1, g)] else [e])) ++ ds.map fun d => (g, d)
+
+/-- the merged commands cancel (nothing is emitted): predecessors are connected to successors -/
+def surgeryEdgesNil (l ms : List Cmd) : List (Cmd × Cmd) :=
+  let es := dagEdges l
+  (es.filter fun e => !ms.contains e.1 && !ms.contains e.2) ++
+  ((es.filter fun e => !ms.contains e.1 && ms.contains e.2).flatMap fun p =>
+    (es.filter fun e => ms.contains e.1 && !ms.contains e.2).map fun q => (p.1, q.2))
+
+/-- every edge points forward in `out` (what any topological sort of `new_DAG` guarantees) -/
+def forward (edges : List (Cmd × Cmd)) (out : List Cmd) : Bool :=
+  edges.all fun e => out.idxOf e.1 < out.idxOf e.2
 
 end SFV.GC
